@@ -2,6 +2,7 @@ import Cherab.Model.Adf
 import Cherab.Lemmas.Adf
 import Cherab.Lemmas.Adf15
 import Cherab.Model.AdfText
+import Cherab.Lemmas.AdfText
 import Mathlib.Tactic.Ring
 import Mathlib.Tactic.Linarith
 import Mathlib.Data.List.Nodup
@@ -895,6 +896,118 @@ theorem installers_separate :
 
 example : installFilesTargets "ADF11prc" = ["install_adf11prc"]
     ∧ installerWrites "install_adf11prc" = some "update_cx_power_rates(repository_path)" := by decide
+
+/-! ## text layer: Fortran fields (proof-deepening pass) -/
+section textlayer
+open Cherab.Adf.Text
+
+/-- **fixed-column slicing inverts the Fortran list write**: for any list of tokens that are non-empty, blank-free and at
+most 9 characters long, written in consecutive 10-column fields, the slice `line[1+10k : 10(k+1)]` of `readvalues`,
+stripped of blanks (as `float()` / `int()` do), is exactly the `k`-th token — for every `k` and every number of tokens. -/
+theorem fixed_field_roundtrip (toks : List Cs) (h : ∀ t ∈ toks, WFTok 9 t) (k : Nat) (hk : k < toks.length) :
+    trim (slice (fieldsLine 10 toks) (1 + 10 * k) (10 * (k + 1))) = toks[k] := by
+  unfold slice fieldsLine
+  have hu : ∀ l ∈ toks.map (rjC 10), l.length = 10 := by
+    intro l hl
+    obtain ⟨t, ht, rfl⟩ := List.mem_map.mp hl
+    exact length_rjC 10 t (by have := (h t ht).len; omega)
+  have h9 : 10 * (k + 1) - (1 + 10 * k) = 9 := by omega
+  rw [h9, Nat.add_comm 1 (10 * k), ← List.drop_drop, drop_flatten_uniform 10 k _ hu, ← List.map_drop]
+  have hd : toks.drop k = toks[k] :: toks.drop (k + 1) := List.drop_eq_getElem_cons hk
+  have ht := h toks[k] (List.getElem_mem hk)
+  obtain ⟨m, hm⟩ : ∃ m, 10 - toks[k].length = m + 1 := ⟨10 - toks[k].length - 1, by have := ht.len; omega⟩
+  rw [hd, List.map_cons, List.flatten_cons]
+  have hf : rjC 10 toks[k] = ' ' :: (List.replicate m ' ' ++ toks[k]) := by simp [rjC, hm, List.replicate_succ]
+  rw [hf, List.cons_append, List.drop_succ_cons, List.drop_zero]
+  have hl : (List.replicate m ' ' ++ toks[k]).length = 9 := by simp; have := ht.len; omega
+  rw [List.take_left' hl]
+  exact trim_padded m toks[k] ht.ne ht.nows
+
+/-- **blank splitting inverts the Fortran list write** (ADF11 `np.fromstring`, ADF15 `line.split()`): tokens that are
+non-empty, blank-free and shorter than the field width come back exactly, in order, whatever their number -/
+theorem ws_tokens_roundtrip (w : Nat) (hw : 0 < w) (toks : List Cs) (h : ∀ t ∈ toks, WFTok (w - 1) t) :
+    splitWs (fieldsLine w toks) = toks := by
+  unfold splitWs
+  cases toks with
+  | nil => simp [fieldsLine, splitWs.go]
+  | cons t ts =>
+    have ht := h t List.mem_cons_self
+    obtain ⟨m, hm⟩ : ∃ m, w - t.length = m := ⟨_, rfl⟩
+    have hfl : fieldsLine w (t :: ts) = List.replicate m ' ' ++ (t ++ fieldsLine w ts) := by simp [fieldsLine, rjC, hm]
+    rw [hfl, go_blanks, go_tok _ t [] ht.nows, List.append_nil,
+      go_fields w ts (fun t' ht' => h t' (List.mem_cons_of_mem _ ht')) hw t.reverse (by simpa using ht.ne), List.reverse_reverse]
+
+theorem trim_map (f : Char → Char) (hf : ∀ c, isWs (f c) = isWs c) (cs : Cs) : trim (cs.map f) = (trim cs).map f := by
+  have hdw : ∀ l : Cs, (l.map f).dropWhile isWs = (l.dropWhile isWs).map f := by
+    intro l
+    induction l with
+    | nil => rfl
+    | cons c l ih =>
+      simp only [List.map_cons, List.dropWhile_cons, hf]
+      split <;> simp [ih]
+  unfold trim
+  rw [hdw, ← List.map_reverse, hdw, List.map_reverse]
+
+/-- the string-level views of the model see exactly the written tokens: the `k`-th `readvalues` field of a rendered data
+line is the `k`-th token after `replace('D','E')`, and the blank-separated tokens of a rendered line are the tokens -/
+theorem data_line_views (xs : List String) (h : ∀ x ∈ xs, WFTok 9 x.toList) (k : Nat) (hk : k < xs.length) :
+    trim (fieldCs (dataLine 10 xs) k) = replaceDE (xs[k]).toList
+    ∧ splitWs (dataLine 10 xs).toList = xs.map String.toList := by
+  have h' : ∀ t ∈ xs.map String.toList, WFTok 9 t := by
+    intro t ht; obtain ⟨x, hx, rfl⟩ := List.mem_map.mp ht; exact h x hx
+  constructor
+  · unfold fieldCs dataLine replaceDE
+    rw [String.toList_ofList, trim_map _ (by intro c; by_cases hc : c = 'D' <;> simp [hc, isWs]),
+      fixed_field_roundtrip _ h' k (by simpa using hk)]
+    simp
+  · unfold dataLine
+    rw [String.toList_ofList]
+    exact ws_tokens_roundtrip 10 (by omega) _ (by simpa using h')
+
+/-- non-vacuity: three tokens, the middle one negative and 9 characters wide -/
+example : trim (slice (fieldsLine 10 ["1.5E+03".toList, "-11.12345".toList, "7".toList]) 11 20) = "-11.12345".toList
+    ∧ splitWs (fieldsLine 9 ["1.00E+07".toList, "2.5E-09".toList]) = ["1.00E+07".toList, "2.5E-09".toList] := by decide
+
+example : WFTok 9 "-11.12345".toList := ⟨by decide, by decide, by decide⟩
+
+end textlayer
+
+/-! ### bulk dispatch for every key spelling -/
+
+theorem filter_key_le_one {β : Type} (x : String) : ∀ (l : List (String × β)), (l.map (·.1)).Nodup →
+    (l.filter fun e => e.1 == x).length ≤ 1 := by
+  intro l
+  induction l with
+  | nil => intro _; simp
+  | cons a l ih =>
+    intro h
+    rw [List.map_cons, List.nodup_cons] at h
+    by_cases ha : (a.1 == x) = true
+    · have hx : a.1 = x := eq_of_beq ha
+      have hnone : l.filter (fun e => e.1 == x) = [] := by
+        rw [List.filter_eq_nil_iff]
+        intro e he hex
+        exact h.1 (by rw [hx, ← eq_of_beq hex]; exact List.mem_map_of_mem he)
+      simp [ha, hnone]
+    · simp only [List.filter_cons, ha, Bool.false_eq_true, if_false]
+      exact ih h.2
+
+/-- **`install_files`, every key spelling**: whatever string is used as configuration key, at most one installer runs and
+it is the installer named after the lower-cased key (lifting of the decided table `dispatch_sound` to all inputs) -/
+theorem install_files_dispatch (key : String) :
+    (installFilesTargets key).length ≤ 1
+    ∧ ∀ f ∈ installFilesTargets key, f = "install_" ++ String.ofList (key.toList.map Char.toLower) := by
+  unfold installFilesTargets
+  constructor
+  · rw [List.length_map]
+    exact filter_key_le_one _ _ dispatch_sound.2.2
+  · intro f hf
+    obtain ⟨e, he, rfl⟩ := List.mem_map.mp hf
+    rw [List.mem_filter] at he
+    rw [← eq_of_beq he.2]
+    exact (dispatch_sound.1 e he.1).1
+
+example : installFilesTargets "AdF22BmE" = ["install_adf22bme"] ∧ installFilesTargets "adf22bms" = [] := by decide
 
 /-! ### which copy of the file is parsed (`_locate_adas_file`) -/
 
